@@ -41,7 +41,9 @@ func (t *TargetHasher) SetTargetChangeHash(target *model.Target) error {
 			return fmt.Errorf("dependency %s of %s has no output hash", targetDependency.Label, target.Label)
 		}
 
-		dependencyHashes = append(dependencyHashes, outputHash)
+		// the dependency's identity is part of its contribution: output hashes cover package-relative
+		// paths only, so two dependencies exchanging their outputs must still change the key
+		dependencyHashes = append(dependencyHashes, targetDependency.Label.String()+"="+outputHash)
 	}
 
 	changeHash, err := GetTargetChangeHash(*target, dependencyHashes)
